@@ -4,12 +4,14 @@
 # with VERIF_REPO, and redirects replays/evidence to /verif/work/mut so that /verif/evidence stays clean.
 set -u
 PATCH="$1"; ID="$2"; TIER="${3:-quick}"
-SCR=/tmp/cedar-scratch
-mkdir -p "$SCR" /verif/work/mut
+SCR="${SCR:-/tmp/cedar-scratch}"
+OUTD="${MUT_OUT:-/verif/work/mut}"
+case "$PATCH" in none|/*) ;; *) PATCH="$(pwd)/$PATCH" ;; esac
+mkdir -p "$SCR" "$OUTD"
 rsync -a --delete --exclude target --exclude .git /repo/ "$SCR"/ || exit 2
 if [ "$PATCH" != "none" ]; then ( cd "$SCR" && patch -p1 -s < "$PATCH" ) || { echo "patch failed"; exit 2; }; fi
-VERIF_REPO="$SCR" VERIF_OUT_DIR=/verif/work/mut /verif/check "$ID" "$TIER" > /verif/work/mut/last.log 2>&1
+VERIF_REPO="$SCR" VERIF_OUT_DIR="$OUTD" /verif/check "$ID" "$TIER" > "$OUTD/last.log" 2>&1
 rc=$?
-grep -E "^(VIOLATION|HARNESS-ERROR|KNOWN-FINDING|violation in run|  expected|  observed|  minimised|done:)" /verif/work/mut/last.log | cut -c1-400
+grep -E "^(VIOLATION|HARNESS-ERROR|KNOWN-FINDING|violation in run|  expected|  observed|  minimised|done:)" "$OUTD/last.log" | cut -c1-400
 echo "exit=$rc"
 exit $rc
